@@ -137,7 +137,9 @@ def _run_all(tasks, btasks, jobs, tasks_per_worker=8):
     def limit_for(kind, task):
         if kind == "c":
             c = core.REGISTRY[task[0]]
-            return c.__class__.__dict__.get("deadline_s", 900) * 2 + 300
+            # the in-path deadline fires first when Python code is running; the hard limit catches a
+            # worker that is stuck inside a C call (a solver, a huge integer operation)
+            return int(c.__class__.__dict__.get("deadline_s", 900) * 1.25) + 120
         return 4 * 3600
 
     def lost(kind, task, why):
